@@ -479,6 +479,7 @@ pub fn property() -> Property {
             "RND(0) before any positive call after seeding has no defined 'previous value'; only 0 <= v < 1 is required there",
             "f64 division by 2^33 is exact for states < 2^33, so bit-equality is the right comparison",
         ],
+        fuzz: None,
         families,
         prelude: None,
         epilogue: None,
